@@ -254,6 +254,48 @@ def choosePivot (lo hi : Nat) : M a0 (Nat × Bool) := do
       swp (lo + k) (lo + len - 1 - k)
     return (len - 1 - ib, true)
 
+/-- the part of one `recurse` iteration after the pivot has been chosen: partition (or `partition_equal` against the
+    predecessor pivot) and the recursive calls; `rec` is the loop itself with one unit of fuel less -/
+def recurseSplit (cancelAt : Nat → Bool)
+    (rec : (lo hi : Nat) → Option α → (limit : Nat) → (wasBalanced wasPartitioned : Bool) → (nread : Nat) → M a0 (Bool × Nat))
+    (lo hi : Nat) (pred : Option α) (limit : Nat) (wasBalanced wasPartitioned : Bool) (nread : Nat) (pivot : Nat) : M a0 (Bool × Nat) := do
+  let len := hi - lo
+  let doEqual ← match pred with
+    | some p => do pure !(lt p (← rd (lo + pivot)))
+    | none => pure false
+  if doEqual then
+    let mid ← partitionEqual lt lo hi pivot
+    rec (lo + mid) hi pred limit wasBalanced wasPartitioned nread
+  else
+    let (mid, wasP) ← partition lt lo hi pivot
+    let wasBalanced := min mid (len - mid) ≥ len / 8
+    let leftLen := mid
+    let rightLen := len - mid - 1
+    let pv ← rd (lo + mid)
+    if max leftLen rightLen ≤ PS_MAX_SEQUENTIAL then
+      if leftLen < rightLen then
+        let (_, nread) ← rec lo (lo + mid) pred limit true true nread
+        rec (lo + mid + 1) hi (some pv) limit wasBalanced wasP nread
+      else
+        let (_, nread) ← rec (lo + mid + 1) hi (some pv) limit true true nread
+        rec lo (lo + mid) pred limit wasBalanced wasP nread
+    else if cancelAt nread then
+      return (true, nread + 1)
+    else
+      -- rayon::join: two tasks on disjoint sub-slices
+      let (c1, nread) ← rec lo (lo + mid) pred limit true true (nread + 1)
+      let (c2, nread) ← rec (lo + mid + 1) hi (some pv) limit true true nread
+      return (c1 || c2, nread)
+
+/-- the part of one iteration from the pattern breaking to the pivot choice and the partial insertion sort -/
+def recursePivot (cancelAt : Nat → Bool)
+    (rec : (lo hi : Nat) → Option α → (limit : Nat) → (wasBalanced wasPartitioned : Bool) → (nread : Nat) → M a0 (Bool × Nat))
+    (lo hi : Nat) (pred : Option α) (limit : Nat) (wasBalanced wasPartitioned : Bool) (nread : Nat) : M a0 (Bool × Nat) := do
+  let (pivot, likelySorted) ← choosePivot lt lo hi
+  if wasBalanced && wasPartitioned && likelySorted then
+    if ← partialInsertionSort lt lo hi then return (false, nread)
+  recurseSplit lt cancelAt rec lo hi pred limit wasBalanced wasPartitioned nread pivot
+
 /-- the loop of `recurse` on `v[lo..hi)`; `pred` = the predecessor pivot (a value), `nread` = number of
     cancel-flag reads so far; returns (cancelled, nread') -/
 def recurseLoop (cancelAt : Nat → Bool) : (fuel : Nat) → (lo hi : Nat) → Option α → (limit : Nat) →
@@ -267,39 +309,11 @@ def recurseLoop (cancelAt : Nat → Bool) : (fuel : Nat) → (lo hi : Nat) → O
     if limit == 0 then
       heapsort lt lo hi
       return (false, nread)
-    let mut limit := limit
     if !wasBalanced then
       breakPatterns lo hi
-      limit := limit - 1
-    let (pivot, likelySorted) ← choosePivot lt lo hi
-    if wasBalanced && wasPartitioned && likelySorted then
-      if ← partialInsertionSort lt lo hi then return (false, nread)
-    let doEqual ← match pred with
-      | some p => do pure !(lt p (← rd (lo + pivot)))
-      | none => pure false
-    if doEqual then
-      let mid ← partitionEqual lt lo hi pivot
-      recurseLoop cancelAt fuel (lo + mid) hi pred limit wasBalanced wasPartitioned nread
+      recursePivot lt cancelAt (recurseLoop cancelAt fuel) lo hi pred (limit - 1) wasBalanced wasPartitioned nread
     else
-      let (mid, wasP) ← partition lt lo hi pivot
-      let wasBalanced := min mid (len - mid) ≥ len / 8
-      let leftLen := mid
-      let rightLen := len - mid - 1
-      let pv ← rd (lo + mid)
-      if max leftLen rightLen ≤ PS_MAX_SEQUENTIAL then
-        if leftLen < rightLen then
-          let (_, nread) ← recurseLoop cancelAt fuel lo (lo + mid) pred limit true true nread
-          recurseLoop cancelAt fuel (lo + mid + 1) hi (some pv) limit wasBalanced wasP nread
-        else
-          let (_, nread) ← recurseLoop cancelAt fuel (lo + mid + 1) hi (some pv) limit true true nread
-          recurseLoop cancelAt fuel lo (lo + mid) pred limit wasBalanced wasP nread
-      else if cancelAt nread then
-        return (true, nread + 1)
-      else
-        -- rayon::join: two tasks on disjoint sub-slices
-        let (c1, nread) ← recurseLoop cancelAt fuel lo (lo + mid) pred limit true true (nread + 1)
-        let (c2, nread) ← recurseLoop cancelAt fuel (lo + mid + 1) hi (some pv) limit true true nread
-        return (c1 || c2, nread)
+      recursePivot lt cancelAt (recurseLoop cancelAt fuel) lo hi pred limit wasBalanced wasPartitioned nread
 
 def bitLen (n : Nat) : Nat := if n = 0 then 0 else Nat.log2 n + 1
 
